@@ -122,7 +122,11 @@ func (m *TLSServerRuleMap) getRuleByVip(c *bfe_tls.Conn) *ServerRule {
 }
 
 func (m *TLSServerRuleMap) getRuleBySni(c *bfe_tls.Conn) *ServerRule {
-	name := c.GetServerName()
+	// host names compare case-insensitively and may carry trailing dots (as in NameCertMap.Get)
+	name := strings.ToLower(c.GetServerName())
+	for len(name) > 0 && name[len(name)-1] == '.' {
+		name = name[:len(name)-1]
+	}
 	return m.sniRuleMap[name]
 }
 
@@ -157,7 +161,7 @@ func (m *TLSServerRuleMap) Update(conf tls_rule_conf.BfeTlsRuleConf,
 			vipRuleMap[vip] = rule
 		}
 		for _, name := range ruleConf.SniConf {
-			sniRuleMap[name] = rule
+			sniRuleMap[strings.ToLower(name)] = rule
 		}
 	}
 
